@@ -174,3 +174,18 @@ def first_diff_sig(a, b):
     if not cands:
         return None
     return min(cands)[2]
+
+
+def all_diff_fields(a, b, limit=6):
+    """sorted set of 'Class.field' (or extra:/missing:Class) that differ"""
+    out = set()
+    for k in set(a) | set(b):
+        if k not in a:
+            out.add(f'extra:{k[0]}')
+        elif k not in b:
+            out.add(f'missing:{k[0]}')
+        elif a[k] != b[k]:
+            for f in set(a[k]) | set(b[k]):
+                if a[k].get(f) != b[k].get(f):
+                    out.add(f'{k[0]}.{f}')
+    return sorted(out)[:limit]
